@@ -36,7 +36,7 @@ MANIFEST_ENTRY = {
             "coordinates, component/label/style/metadata variants through GlueSerializer and Application.save_session, include_data on and off, each saved twice.",
     "note": "Level is exploration: the statement quantifies over per-class savers that are numpy/astropy code. Known findings are listed in known_findings.json.",
 }
-MANIFEST_ENTRY['text'] += (" Twenty-one saver / loader pairs (plain subsets; the four closed-form regions and the range regions of glue/core/roi.py; in glue/core/state.py: range, region, n-d region, inequality and composite selections, slices, lists, styles; the __gluestate__ / __setgluestate__ methods of seven selection classes in glue/core/subset.py) are proved to be inverse of one another: "
+MANIFEST_ENTRY['text'] += (" Twenty-three saver / loader pairs (plain subsets, element and 3-d region selections; the four closed-form regions and the range regions of glue/core/roi.py; in glue/core/state.py: range, region, n-d region, inequality and composite selections, slices, lists, styles; the __gluestate__ / __setgluestate__ methods of seven selection classes in glue/core/subset.py) are proved to be inverse of one another: "
                            "the real saver is run on an object with opaque field values and the real loader on the record it returned, with the serialization context abstracted to id / object as "
                            "inverse functions; the loader must hand the constructor exactly the saved values (by identity, so falsy values are not swapped for defaults) in the right positions.")
 TRUSTED_BASE.append("saver/loader pair contracts: context.id / context.object are inverse functions, context.do an inline record; class constructors are stubs recording their arguments; "
